@@ -187,6 +187,7 @@ func vPool(poolLimit, proxyLimit int64) (*ServerPool, *Server) {
 var vSymbolicRequest = true
 
 var vWellKnown string
+var vMethodOverride string
 var vWellKnownHeaders = [][2]string{{"Expect", "100-continue"}, {"Authorization", "Basic dTpw"}, {"Cookie", "a=b"},
 	{"Content-Type", "text/plain"}, {"Range", "bytes=0-1"}, {"If-None-Match", "\"e\""}, {"Cache-Control", "no-cache"}}
 
@@ -197,6 +198,9 @@ func vClientRequest(body []byte, stream bool) (*context.Context, *httpprot.Reque
 		query = verifString("req.rawQuery", 2)
 		hv = verifString("req.header", 2)
 		method = []string{"GET", "POST", "PUT"}[verifChoose("req.method", 3)]
+	}
+	if !vSymbolicRequest && vMethodOverride != "" {
+		method = vMethodOverride
 	}
 	hdr := http.Header{"X-End-To-End": []string{hv}, "Accept-Encoding": []string{"gzip"}}
 	vWellKnown = ""
@@ -526,6 +530,12 @@ func verifC10_Pool() {
 		sp.timeout = time.Second
 	}
 	stream := verifBool("req.stream")
+	vMethodOverride = ""
+	if stream && verifBool("req.streamedBodyOnASafeMethod") {
+		// a streamed body is a stream whatever the method (a GET may carry one)
+		vMethodOverride = "GET"
+		verifCover("streamed-body-on-a-safe-method")
+	}
 	fnSendRequest = vSend
 
 	requests := verifBound("clientRequests")
